@@ -387,9 +387,12 @@ def main(argv=None):
     if nshards == 1:
         results = [shard_main(jobs[0])]
     else:
+        # non-daemonic workers (a case may spawn a child process itself)
+        from concurrent.futures import ProcessPoolExecutor
         ctx = multiprocessing.get_context("fork")
-        with ctx.Pool(min(nshards, os.cpu_count() or 1)) as pool:
-            results = pool.map(shard_main, jobs, chunksize=1)
+        with ProcessPoolExecutor(min(nshards, os.cpu_count() or 1),
+                                 mp_context=ctx) as pool:
+            results = list(pool.map(shard_main, jobs))
     for r in results:
         total.evaluations += r["evaluations"]
         total.keys |= r["keys"]
